@@ -39,6 +39,11 @@ type report struct {
 
 var rep = report{Matched: map[string]int{}}
 
+func dirExists(p string) bool {
+	st, err := os.Stat(p)
+	return err == nil && st.IsDir()
+}
+
 func main() {
 	repo := flag.String("repo", "/repo", "repository root")
 	out := flag.String("out", "", "scratch output directory")
@@ -66,6 +71,10 @@ func main() {
 	}
 	if *egDir != "" {
 		cfgs = append(cfgs, pkgCfg{tag: "errgroup", dir: *egDir, imports: syncMap, goStmts: true})
+		// the other goroutine-coordinating package of the same module a change to the repository may start to use
+		if sf := filepath.Join(filepath.Dir(*egDir), "singleflight"); dirExists(sf) {
+			cfgs = append(cfgs, pkgCfg{tag: "singleflight", dir: sf, imports: syncMap, goStmts: true})
+		}
 	}
 	overlay := map[string]string{}
 	for _, c := range cfgs {
